@@ -429,6 +429,34 @@ let run_stream id (lines : string list) =
       | _ -> failwith ("bad stream line: " ^ line)) lines
   with NoFuel -> emit id "NOFUEL" "")
 
+
+(* ---------- command line (C15) ---------- *)
+let run_cli id (lines : string list) =
+  let text = ref "" and md = ref MHybrid and sm = ref SNone and heu = ref HSimple in
+  let fl = ref { f_grd = false; f_com = false; f_stm = false; f_stmca = false; f_stmcb = false; f_stmpre = false;
+                 f_stmrew = false; f_stmrew2 = false; f_stmng = false; f_twoval = false } in
+  List.iter (fun line ->
+    match words line with
+    | ["text"; h] -> text := unhex h
+    | ["text"] -> text := ""
+    | ["mode"; m] -> md := (match m with "hybrid" -> MHybrid | "biodivine" -> MBio | _ -> MNaive)
+    | ["sort"; s] -> sm := (if s = "lexi" then SLexi else SNone)
+    | "heu" :: h :: rest -> heu := heuristic_of_words h rest
+    | "flags" :: l ->
+      List.iter (fun f -> fl := (match f with
+        | "grd" -> { !fl with f_grd = true } | "com" -> { !fl with f_com = true } | "stm" -> { !fl with f_stm = true }
+        | "stmca" -> { !fl with f_stmca = true } | "stmcb" -> { !fl with f_stmcb = true } | "stmpre" -> { !fl with f_stmpre = true }
+        | "stmrew" -> { !fl with f_stmrew = true } | "stmrew2" -> { !fl with f_stmrew2 = true } | "stmng" -> { !fl with f_stmng = true }
+        | "twoval" -> { !fl with f_twoval = true } | _ -> failwith ("bad flag " ^ f))) l
+    | [] -> ()
+    | _ -> failwith ("bad cli line " ^ line)) lines;
+  match cli_run cfg_default !md !sm !fl !heu (str_of_string !text) with
+  | None -> emit id "NOFUEL" ""
+  | Some (code, secs) ->
+    emit id "exit" (sn code);
+    List.iter (fun (Sec (f, ordered, ls)) ->
+      emit id "sec" (string_of_str f ^ " " ^ (if ordered then "1" else "0") ^ " " ^ join "," (fun l -> hex (string_of_str l)) ls)) secs
+
 (* ---------- main loop ---------- *)
 let () =
   let ic = if Array.length Sys.argv > 1 then open_in Sys.argv.(1) else stdin in
@@ -451,6 +479,7 @@ let () =
               | "NG" -> run_ng id lines
               | "LEAF" -> run_leaf id lines
               | "STREAM" -> run_stream id lines
+              | "CLI" -> run_cli id lines
               | _ -> failwith ("unknown case kind " ^ kind))
            with Stack_overflow -> emit id "STACKOVERFLOW" ""
               | e -> emit id "EXN" (Printexc.to_string e));
